@@ -1,7 +1,14 @@
 /* Unit: lib/lh_new_decoder.c as instantiated by VG_METHOD_FILE (lh5/lh6/lh7/lhx/lk7), together with
    the bit_stream_reader.c and tree_decode.c templates it includes (TreeElement = uint16_t). */
 #define VG_CB_MAX 4
+#ifdef VG_FUNC
+#define VG_CB vg_cbf
+#endif
 #include "vg_decoder.h"
+#ifdef VG_FUNC
+#include "lib/lha_decoder.h"
+#include "vg_bits.h"
+#endif
 
 /* tree selection for the tree_decode.c contracts: 1 = code_tree, 2 = offset_tree, 3 = temp_tree */
 #ifndef VG_BT
@@ -61,6 +68,11 @@
 #define VG_MAX_COPY (VG_CODE_ML - 1 - 256 + COPY_THRESHOLD)
 #endif
 
+#include "vg_ring.h"
+int vg_offset;      /* ghost: the value copy_from_history obtained from read_offset_code (woven ghost assignment) */
+static size_t vg_p0, vg_l0;
+static unsigned vg_n0;
+
 #include VG_METHOD_FILE
 
 TreeElement *const vg_bt_tree = VG_BT_ARRAY;
@@ -70,7 +82,49 @@ static void vg_havoc(void)
 {
 	__CPROVER_havoc_object(&vg_dec);
 	__CPROVER_havoc_object(vg_out);
+	vg_K = nondet_size_t(); vg_Y = nondet_size_t(); vg_E = nondet_size_t();
+	/* Skolem indices range over the valid cells of their arrays */
+	__CPROVER_assume(vg_K < OUTPUT_BUFFER_SIZE && vg_Y < RING_BUFFER_SIZE && vg_E < OUTPUT_BUFFER_SIZE);
 }
+
+#ifdef VG_HARNESS_MODE
+/* C01 step 2: the copy command has exactly LZ77 semantics copy(distance = offset + 1, length = count) on the
+   sliding window, for every ring state, write position, distance inside the window and admissible count:
+   overlap (distance < length), wrap-around and reaching into never-written cells included.  Checked around
+   the real call (legacy route: loop contract applied, output_byte inlined, read_offset_code replaced by its
+   contract); one arbitrary output byte vg_K, ring cell vg_Y and earlier byte vg_E stand for all. */
+void h_copy_from_history_func(void)
+{
+	LHANewDecoder *decoder = &vg_dec;
+	uint8_t *buf = vg_out;
+	size_t bl = nondet_size_t(), count = nondet_size_t();
+	size_t *buf_len = &bl;
+	size_t l0, p0;
+	vg_havoc();
+	__CPROVER_assume(VG_BSR && vg_dec.ringbuf_pos < RING_BUFFER_SIZE);
+	__CPROVER_assume(bl <= OUTPUT_BUFFER_SIZE && count <= OUTPUT_BUFFER_SIZE - bl);
+	vg_dec0 = vg_dec;
+	__CPROVER_array_copy(vg_out0.b, vg_out);
+	l0 = bl; p0 = vg_dec.ringbuf_pos;
+	vg_offset = -1;
+	copy_from_history(decoder, buf, buf_len, count);
+	if (vg_offset >= 0 && (size_t) vg_offset < RING_BUFFER_SIZE) {
+		size_t d = (size_t) vg_offset;
+		__CPROVER_assert(bl == l0 + count, "copy: output advanced by the copy length");
+		__CPROVER_assert(vg_dec.ringbuf_pos == (p0 + count) % RING_BUFFER_SIZE, "copy: window position advanced mod S");
+		__CPROVER_assert(vg_K < count ==> vg_out[l0 + vg_K] ==
+		                 (vg_K > d ? vg_out[l0 + vg_K - d - 1] : vg_dec0.ringbuf[(p0 + RING_BUFFER_SIZE - d - 1 + vg_K) % RING_BUFFER_SIZE]),
+		                 "C01 copy: byte K equals the byte distance d+1 back in the output-so-far / sliding window (LZ77, overlap aware)");
+		__CPROVER_assert(vg_dec.ringbuf[vg_Y] == (VG_WRITER(vg_Y, p0) < count ? vg_out[l0 + VG_WRITER(vg_Y, p0)] : vg_dec0.ringbuf[vg_Y]),
+		                 "C01 copy: window afterwards = old window overwritten by the output at the old position");
+	} else if (vg_offset < 0) {
+		__CPROVER_assert(bl == l0 && vg_dec.ringbuf_pos == p0 && vg_dec.ringbuf[vg_Y] == vg_dec0.ringbuf[vg_Y],
+		                 "copy: a failed offset read outputs nothing and leaves the window alone");
+	}
+	__CPROVER_assert(vg_E < l0 ==> vg_out[vg_E] == vg_out0.b[vg_E], "copy: earlier output bytes unchanged");
+	VG_CANARY("copy_from_history_func");
+}
+#endif
 
 void h_peek_bits(void) { BitStreamReader *r; unsigned n; peek_bits(r, n); VG_CANARY("peek_bits"); }
 void h_read_bits(void) { BitStreamReader *r; unsigned n; read_bits(r, n); VG_CANARY("read_bits"); }
@@ -100,6 +154,62 @@ void h_read_offset_table(void) { LHANewDecoder *d; vg_havoc(); read_offset_table
 void h_start_new_block(void) { LHANewDecoder *d; vg_havoc(); start_new_block(d); VG_CANARY("start_new_block"); }
 void h_read_code(void) { LHANewDecoder *d; vg_havoc(); read_code(d); VG_CANARY("read_code"); }
 void h_read_offset_code(void) { LHANewDecoder *d; vg_havoc(); read_offset_code(d); VG_CANARY("read_offset_code"); }
+#ifdef LHARK
+void h_lhark_read_offset_code(void) { LHANewDecoder *d; int c; vg_havoc(); lhark_read_offset_code(d, c); VG_CANARY("lhark_read_offset_code"); }
+void h_lhark_decode_copy_count(void) { LHANewDecoder *d; int c; vg_havoc(); lhark_decode_copy_count(d, c); VG_CANARY("lhark_decode_copy_count"); }
+#endif
+#ifdef VG_FUNC
+/* C01 step 3 (block-header field formats), checked on the real code with the real bit reader, whose loops are
+   bounded by the 32-bit buffer width; the stream is the 48-byte ghost window.
+   read_length_value: 3 bits; the value 7 is extended in unary: each further 1 bit adds one, a 0 bit ends it.
+   Complete for every length 0..19 (valid LHA code lengths are 0..16); longer unary runs are outside the bound. */
+void h_read_length_value_func(void)
+{
+	size_t cur0, k, ones;
+	unsigned v3;
+	int ret;
+	vg_havoc();
+	__CPROVER_havoc_object(vg_in);
+	vg_in_pos = nondet_size_t(); vg_eof = 0;
+	__CPROVER_assume(BITS_PRE(&vg_dec.bit_stream_reader, 0u) && vg_in_pos <= VG_POS_MIN + 4);
+	cur0 = VG_CUR(&vg_dec.bit_stream_reader);
+	v3 = VG_SB(cur0, 3u);
+	ones = 0;
+	for (k = 0; k < 12; k++) { if (ones == k && VG_SB(cur0 + 3 + k, 1u) == 1) ones = k + 1; }
+	__CPROVER_assume(ones < 12);                       /* bound of this group: unary extension of at most 11 ones */
+	ret = read_length_value(&vg_dec);
+	if (ret >= 0) {
+		__CPROVER_assert(v3 < 7 ? (ret == (int) v3 && VG_CUR(&vg_dec.bit_stream_reader) == cur0 + 3)
+		                        : (ret == 7 + (int) ones && VG_CUR(&vg_dec.bit_stream_reader) == cur0 + 3 + ones + 1),
+		                 "C01 length field: 3 bits, 7 extended in unary and closed by a 0 bit; exactly those bits consumed");
+	} else {
+		__CPROVER_assert(vg_eof, "C01 length field: failure only at end of input");
+	}
+	VG_CANARY("read_length_value_func");
+}
+/* read_skip_count: zero-run lengths of the code table: class 0 -> 1; class 1 -> 3 + next 4 bits; class 2 -> 20 + next 9 bits */
+void h_read_skip_count_func(void)
+{
+	size_t cur0;
+	int ret, cls = nondet_int();
+	vg_havoc();
+	__CPROVER_havoc_object(vg_in);
+	vg_in_pos = nondet_size_t(); vg_eof = 0;
+	__CPROVER_assume(cls >= 0 && cls <= 2);
+	__CPROVER_assume(BITS_PRE(&vg_dec.bit_stream_reader, 0u) && vg_in_pos <= VG_POS_MIN + 4);
+	cur0 = VG_CUR(&vg_dec.bit_stream_reader);
+	ret = read_skip_count(&vg_dec, cls);
+	if (ret >= 0) {
+		__CPROVER_assert(cls == 0 ? (ret == 1 && VG_CUR(&vg_dec.bit_stream_reader) == cur0) :
+		                 cls == 1 ? (ret == 3 + (int) VG_SB(cur0, 4u) && VG_CUR(&vg_dec.bit_stream_reader) == cur0 + 4) :
+		                            (ret == 20 + (int) VG_SB(cur0, 9u) && VG_CUR(&vg_dec.bit_stream_reader) == cur0 + 9),
+		                 "C01 zero-run forms: 1 | 3 + 4 bits | 20 + 9 bits, exactly those bits consumed");
+	} else {
+		__CPROVER_assert(vg_eof, "C01 zero-run forms: failure only at end of input");
+	}
+	VG_CANARY("read_skip_count_func");
+}
+#endif
 void h_output_byte(void) { LHANewDecoder *d; uint8_t *b; size_t *bl; uint8_t v; vg_havoc(); output_byte(d, b, bl, v); VG_CANARY("output_byte"); }
 void h_copy_from_history(void) { LHANewDecoder *d; uint8_t *b; size_t *bl; size_t c; vg_havoc(); copy_from_history(d, b, bl, c); VG_CANARY("copy_from_history"); }
 void h_read(void) { void *d; uint8_t *b; vg_havoc(); lha_lh_new_read(d, b); VG_CANARY("lha_lh_new_read"); }
